@@ -200,7 +200,9 @@ func runC02(cfg Config) {
 			"low-entropy, repetitive; sizes around k*min, k*max) x params incl. min=avg=max, vs model chunkAll; (c) same through a "+
 			"fragmenting reader (1-byte, empty, random reads) vs model Buffered.all; (d) IndexFromFile n=1..16 and ChunkStream vs "+
 			"the sequential result (full index equality: count, start, size, ID=H(slice), params, flags); (e) testdata/chunker.input "+
-			"vs casync-made chunker.index. non-trivial = distinct case with at least 2 chunks")
+			"vs casync-made chunker.index; (f) IndexFromFile under a cooperative scheduler (verifPar hooks; random priorities with change points, "+
+			"bursts, later-workers-first) on zero/phase-shifted/zero-run/constant files: the recorded event trace must be a behaviour of the "+
+			"Lean machine Par.step (par.accept) and the index must equal the sequential sequence. non-trivial = distinct case with at least 2 chunks")
 	m, err := StartModel(cfg.Driver)
 	if err != nil {
 		fatal(err)
@@ -420,6 +422,9 @@ func runC02(cfg Config) {
 			}
 		}
 	}
+
+	// (f) IndexFromFile under recorded cooperative schedules, traces validated against the Lean machine
+	runC02Par(cfg, rep, m, rng)
 
 	// (e) casync-pinned reference
 	if in, err := os.ReadFile(filepath.Join(cfg.Repo, "testdata", "chunker.input")); err == nil {
